@@ -398,7 +398,9 @@ class Executor(object):
             frame[pname] = v
         # local aggregates become objects
         for name, typ in fn.decls.items():
-            if typ.startswith('struct ') and '*' not in typ:
+            # qualifiers do not change what the object is (a `const struct x s = *p;` private copy: seeded C17-m3)
+            bare = ' '.join(w for w in typ.split() if w not in ('const', 'volatile', 'static', 'register'))
+            if bare.startswith('struct ') and '*' not in bare:
                 state.nobj += 1
                 oid = '%s.%s#%d' % (fn.name, name, state.nobj)
                 state.new_object(oid, {'__undef__': True})
